@@ -38,15 +38,15 @@ Proof.
   repeat bind_step.
 Qed.
 
-(* a statement that can stand in an embedding position: a SELECT (or DELETE / INSERT .. SELECT) without upsert and RETURNING parts *)
+(* a statement that can stand in an embedding position: a SELECT, DELETE or INSERT .. SELECT without upsert part - with or without RETURNING *)
 Definition selectable (q : query) : bool :=
-  negb (has_upd q) && negb (q_on_conflict q) && negb (has_ins q && has_vals q) && negb (is_nonempty_terms (q_returns q)).
+  negb (has_upd q) && negb (q_on_conflict q) && negb (has_ins q && has_vals q).
 
 Lemma generic_wrap R q c sq wa p : selectable q = true ->
   generic_with R q c sq wa p = then_wrap c q sq wa (generic_with R q c false false p).
 Proof.
   unfold selectable. intro H.
-  apply andb_prop in H; destruct H as [H Hret]. apply andb_prop in H; destruct H as [H Hiv].
+  apply andb_prop in H; destruct H as [H Hiv].
   apply andb_prop in H; destruct H as [Hupd Hoc].
   apply negb_true_iff in Hupd, Hoc, Hiv.
   unfold generic_with. rewrite Hupd. cbv zeta.
@@ -61,14 +61,21 @@ Lemma main_wrap R q c0 c0' c sq wa p : selectable q = true ->
   main_with R q c0 c sq wa p = then_wrap c q sq wa (main_with R q c0' c false false p).
 Proof.
   intro Hs. pose proof Hs as H. unfold selectable in H.
-  apply andb_prop in H; destruct H as [H Hret]. apply andb_prop in H; destruct H as [H Hiv].
+  apply andb_prop in H; destruct H as [H Hiv].
   apply andb_prop in H; destruct H as [Hupd Hoc].
-  apply negb_true_iff in Hupd, Hoc, Hiv, Hret.
-  unfold main_with, returning. rewrite Hupd. rewrite !(generic_wrap R q c sq wa p Hs).
-  destruct (q_returns q) eqn:Er; [|discriminate Hret].
-  destruct (generic_with R q c false false p) as [[s p']|e]; cbn [then_wrap]; destruct (q_cls q); try reflexivity.
-  all: destruct s; cbn [then_wrap]; try reflexivity.
-  all: match goal with |- context [match ?X with [] => _ | _ :: _ => _ end] => destruct X end; reflexivity.
+  apply negb_true_iff in Hupd, Hoc, Hiv.
+  unfold main_with, returning. rewrite Hupd.
+  destruct (q_returns q) as [|r0 rs] eqn:Er; cbn [is_nonempty_terms]; cbv zeta.
+  - rewrite !(generic_wrap R q c sq wa p Hs).
+    destruct (generic_with R q c false false p) as [[s p']|e]; cbn [then_wrap]; destruct (q_cls q); try reflexivity.
+    all: destruct s; cbn [then_wrap]; try reflexivity.
+    all: match goal with |- context [match ?X with [] => _ | _ :: _ => _ end] => destruct X end; reflexivity.
+  - destruct (q_cls q) eqn:Ec.
+    all: try (rewrite !(generic_wrap R q c sq wa p Hs); destruct (generic_with R q c false false p) as [[s p']|e]; cbn [then_wrap]; try reflexivity;
+              destruct s; cbn [then_wrap]; try reflexivity;
+              match goal with |- context [match ?X with [] => _ | _ :: _ => _ end] => destruct X end; reflexivity).
+    destruct (generic_with R q c false false p) as [[s p']|e]; cbn [then_wrap]; [|reflexivity].
+    repeat bind_step.
 Qed.
 
 (* ------------------------------------------------------------------------------------------------ *)
